@@ -664,6 +664,85 @@ def run_traj(case, tab, seed):
     return res
 
 
+# -- block cases: one integrator and one joint, a block of the parameters integrated twice with the rest of
+#    the target changed in between --------------------------------------------------------------------------
+
+BLOCK_EL = [(0.01, 1), (0.05, 3), (0.1, 10), (0.5, 2)]
+
+
+def block_cases(tier):
+    out = []
+    for name, (kind, d, split) in target_table(tier).items():
+        if len(split) < 2:
+            continue
+        for b in range(len(split)):
+            for eps, L in BLOCK_EL:
+                for k in corner_ids(d, tier)[:3]:
+                    out.append({"kind": "block", "target": name, "block": b, "eps": eps, "L": L, "corner": k})
+    return out
+
+
+def run_block(case, tab, seed):
+    """(1) integrate block b from the corner point; (2) keep the end point, move every other block through
+    the public parameter interface; (3) integrate block b again from where it is.  The second trajectory
+    must be the one a freshly built integrator + target produce from the same state (bit for bit up to
+    1e-12), and the map must still be reversible."""
+    import torch
+
+    kind, d, split = tab[case["target"]]
+    blocks = _blocks(split)
+    a, b = blocks[case["block"]]
+    eps, L = case["eps"], case["L"]
+    q0, p0 = corner(d, case["corner"], seed)
+    res = {"bad": [], "status": "stable", "metrics": {}}
+    Minv = torch.ones(b - a, dtype=torch.float64)
+    target = oracle_target(kind, d)
+    if classify(target, np.ones(d), q0, p0, eps, L)[0] == "unstable":
+        res["status"] = "unstable"
+        return res
+
+    def integ(env, p):
+        try:
+            out = env.lf(env.joint, [env.params[case["block"]]], torch.tensor(np.asarray(p, dtype=float)), Minv)
+            return env.get_q(), out.detach().numpy().copy()
+        except ValueError as e:
+            return None, f"ValueError: {e}"
+
+    env = Env(kind, d, split, q0, eps, L)
+    env.set_q(q0)
+    q1, p1 = integ(env, p0[a:b])
+    if q1 is None:
+        res["status"] = "loud"
+        return res
+    # the rest of the target moves (other operators do this between two HMC moves)
+    q_mid = q1.copy()
+    for j, (a2, b2) in enumerate(blocks):
+        if j != case["block"]:
+            q_mid[a2:b2] = q_mid[a2:b2] * 1.37 + 0.21
+            env.params[j].tensor = torch.tensor(q_mid[a2:b2])
+    if not np.isfinite(target.logp(q_mid)):
+        res["status"] = "left_support"
+        return res
+    q2, p2 = integ(env, p0[a:b])
+    fresh = Env(kind, d, split, q_mid, eps, L)
+    fresh.set_q(q_mid)
+    q2f, p2f = integ(fresh, p0[a:b])
+    if q2 is None or q2f is None:
+        if (q2 is None) != (q2f is None):
+            res["bad"].append(("block_history", f"second trajectory of block {case['block']}: live {p2!r}, a freshly "
+                                                f"built integrator {p2f!r}"))
+        return res
+    err = max(float(np.max(np.abs(q2 - q2f))), float(np.max(np.abs(p2 - p2f))))
+    res["metrics"]["block_err"] = err
+    if not err <= 1e-12 * max(1.0, float(np.max(np.abs(q2f))), float(np.max(np.abs(p2f)))):
+        res["bad"].append(("block_history",
+                           f"block {case['block']} integrated, the other blocks moved to {q_mid.tolist()}, block "
+                           f"integrated again with momentum {p0[a:b].tolist()}: ends at q={q2.tolist()} "
+                           f"p={p2.tolist()}; a freshly built integrator and target from the same state end at "
+                           f"q={q2f.tolist()} p={p2f.tolist()} (max deviation {err:.3e})"))
+    return res
+
+
 # -- op cases ---------------------------------------------------------------------------------
 
 OP_EL = [(0.01, 1), (0.1, 3), (0.5, 2), (0.05, 10)]
@@ -971,7 +1050,7 @@ def run_mcmc(case, tab, seed):
 
 # -- driver -------------------------------------------------------------------------------
 
-RUNNERS = {"traj": run_traj, "op": run_op, "mcmc": run_mcmc}
+RUNNERS = {"traj": run_traj, "op": run_op, "mcmc": run_mcmc, "block": run_block}
 _TAB = {}
 
 
@@ -1054,9 +1133,11 @@ def run(run):
     ref.self_test()
     tier, seed = run.tier, run.seed
     tt.boot()
-    cases = traj_cases(tier) + op_cases(tier) + mcmc_cases(tier)
+    cases = traj_cases(tier) + op_cases(tier) + mcmc_cases(tier) + block_cases(tier)
     closed_form = 0
     for name, (kind, d, split) in _tab(tier).items():
+        if len(split) >= 2:
+            closed_form += len(split) * len(BLOCK_EL) * len(corner_ids(d, tier)[:3])         # block histories
         nm = len(masses(tier))
         closed_form += nm * len(EPS) * len(STEPS) * len(corner_ids(d, tier))          # traj, constructed
         closed_form += (nm if tier == "thorough" else 2) * len(EPS) * len(STEPS) * 3   # traj, other ways
